@@ -18,9 +18,10 @@ delivers can be compared with CallableSchema.CallStep in-process on the same raw
 import os, json, glob, random
 from vlib import common
 from props import atp_common as A
+from props import atp_hello as H
 from props import c06 as C6
 
-SPECS = ["ATPMC", "ATPTrace"]
+SPECS = ["ATPMC", "ATPTrace", "ATPHelloMC", "ATPHelloTraceMC"]
 PKGS = ["./cmd/atp", "./cmd/yieldgen"]
 INVS = ["TypeOK", "Transparent", "NoCrossTalk", "WriterAtomic", "Faithful", "NoStuck"]
 NPAYLOADS = 18
@@ -58,7 +59,7 @@ def run(ctx):
     ctx.assumptions += [
         "no write stalls >= 60 s (sendRuntimeMessage timeout not driven)",
         "payload equality is judged on the values a fresh CBOR decode yields (maps compared structurally)",
-        "v1 framing carries no run IDs: exercised strictly serially (echo sessions here, fault enumeration in C08); it is outside the TLA+ model",
+        "v1 framing carries no run IDs: echo sessions are strictly serial; overlapping v1 calls are modelled in spec/ATPHello.tla (one call at a time from work-start to work-done) and exercised with held gates",
         "design variant of the model bound to the code: %s" % json.dumps(A.DESIGN),
     ]
     mc = [("serial2_unsolicited", dict(Runs="R2", Cap=2, Frag="TRUE", StepBeh="BehOkErr", SigRuns="R1", BadSigRuns="R1", Serial="TRUE"),
@@ -237,6 +238,12 @@ def run(ctx):
                 ctx.violation(dict(kind="trace_" + info["kind"], event=info["line"]["ev"], violated=str(info.get("violated"))),
                               dict(session=info.get("session"), line=info["line"], prefix=info.get("prefix"),
                                    events=evs[: info["event_index"] + 3], tlc=info.get("tlc_tail", "")))
+    # ------------------------------------------------------------ the legacy framing in the specification
+    # spec/ATPHello.tla with a faithful v1 plugin: TLC (serial and overlapping calls, liveness; the read-lock-only
+    # deviation must exhibit cross-talk), behaviours and held-gate schedules of overlapping calls on the real client,
+    # every session validated by ATPHelloTrace.tla
+    ctx.extra["v1_model_sessions_accepted"] = H.stage_v1(ctx, thorough)
+    ctx.extra["v1_design_variant"] = H.DESIGN
     ctx.exhaustive = False
 
 
@@ -244,6 +251,12 @@ def replay(ctx, rp):
     sc = rp["replay"].get("scenario")
     if not sc:
         raise common.Infra("replay file carries no scenario (trace rejections are reproduced by re-running the check)")
+    if sc.get("mode") in ("hello", "hello_srv"):
+        H.play(ctx, [sc], "client" if sc["mode"] == "hello" else "server", "v1",
+               describable=sc.get("hello_bad") != "undescribable", label="replayhello")
+        ctx.rule = "replay of one recorded handshake / legacy-framing session"
+        ctx.sample(dict(id=sc.get("id"), ops=sc.get("ops")))
+        return
     rr = A.run_driver(ctx, [sc], jobs=1)[0]
     judge(ctx, sc, rr, "replay")
     ctx.sample(dict(id=sc.get("id"), mode=sc.get("mode")))
